@@ -848,6 +848,10 @@ def _all_nodes(node):
 
 def _fix_points(case):
     ins = node_ins(case["proc"])
+    used = set(ins) | set(node_outs(case["proc"]))
+    for l in leaves(case["proc"]):
+        used |= {n for n, _ in l["spec"]["ins"]} | {n for n, _ in l["spec"]["outs"]}
+    case["sizes"] = {n: k for n, k in case["sizes"].items() if n in used}
     for r in case["reqs"]:
         r["point"] = {n: r["point"].get(n, ["0"] * case["sizes"][n])[: case["sizes"][n]] + ["0"] * max(0, case["sizes"][n] - len(r["point"].get(n, []))) for n in ins}
         r["in"] = [n for n in r["in"] if n in ins]
@@ -976,6 +980,8 @@ def shrink(case, fails, budget: int = 250, scope: bool = True):
                 cur = cand
                 progress = True
                 break
+    cur = copy.deepcopy(cur)
+    _fix_points(cur)
     return cur
 
 
